@@ -703,4 +703,6 @@ def run(run: Run):
     run.floor('C01.R4', 20)
     run.floor('C01.R5', 2)
     run.floor('C01.R6', 5)
+    from .common import shared_mechanisms as _shared
+    _shared(run, 'C01', 10, ['stored-values', 'addresses'])
     return INFO
